@@ -210,7 +210,9 @@ Definition funcs (a : gattr) (vals : list gvalue) : list gdecl :=
         DFunc id FLookup tg q VNamed; DFunc id FSet tg false VNamed; DFunc id FDel false false VNamed]
   else [].   (* vsa: only its _Type constant *)
 
-Record cvendor := mkcvendor { cv_v : gvendor; cv_attrs : list gattr; cv_vals : list gvalue }.
+Record cvendor := mkcvendor { cv_name : bytes; cv_ident : bytes; cv_num : Z; cv_attrs : list gattr; cv_vals : list gvalue }.
+Definition cvendor_lt (a b : cvendor) : bool :=
+  if negb (cv_num a =? cv_num b) then cv_num a <? cv_num b else bytes_lt (cv_name a) (cv_name b).
 
 Fixpoint check_vendors (ignore seen : list bytes) (l : list gvendor) : res (list cvendor) :=
   match l with
@@ -225,13 +227,25 @@ Fixpoint check_vendors (ignore seen : list bytes) (l : list gvendor) : res (list
       | Some e => Err e
       | None =>
         match check_vendors ignore seen' r with
-        | Ok cs => Ok (mkcvendor v attrs vals :: cs)
+        | Ok cs => Ok (mkcvendor (gn_name v) (gn_ident v) (gn_num v) attrs vals :: cs)
         | Err x => Err x | Panic => Panic | OutOfFuel => OutOfFuel
         end
       end
     | Err x => Err x | Panic => Panic | OutOfFuel => OutOfFuel
     end
   end.
+
+Definition ext_values (exts : list gvalue) (e : bytes * bytes) : list gvalue :=
+  sort value_lt (filter (fun v => beq (gl_attr v) (fst e)) exts).
+
+(* the emitted declarations, in order *)
+Definition emit (attrs : list gattr) (ext : list (bytes * bytes)) (values exts : list gvalue) (vendors : list cvendor) : list gdecl :=
+  map (fun a => DTypeConst (ga_ident a) (hd 0 (ga_oid a))) attrs
+  ++ map (fun c => DVendorConst (cv_ident c) (cv_num c)) vendors
+  ++ map (fun e => DExtInit (snd e) (map (fun v => (gl_ident v, gl_num v)) (ext_values exts e))) ext
+  ++ flat_map (fun a => funcs a values) attrs
+  ++ flat_map (fun c => map (DVendorFunc (cv_ident c)) [0; 1; 2; 3; 4]
+                        ++ flat_map (fun a => funcs a (cv_vals c)) (cv_attrs c)) vendors.
 
 Definition gen (o : gopts) (d : gdict) : res (list gdecl) :=
   match check_attrs invalid_top E_attr (go_ignore o) [] (gd_attrs d) with
@@ -241,7 +255,7 @@ Definition gen (o : gopts) (d : gdict) : res (list gdecl) :=
     match split_values (go_ignore o) (map ga_name attrs) (map fst ext) (gd_vals d) with
     | Ok (locals, exts) =>
       let values := sort value_lt locals in
-      let ext_vals := fun e : bytes * bytes => sort value_lt (filter (fun v => beq (gl_attr v) (fst e)) exts) in
+      let ext_vals := ext_values exts in
       match first_error (fun a => check_values a values) attrs with
       | Some e => Err e
       | None =>
@@ -250,14 +264,8 @@ Definition gen (o : gopts) (d : gdict) : res (list gdecl) :=
       | None =>
       match check_vendors (go_ignore o) seen (gd_vendors d) with
       | Ok cvs =>
-        let vendors := sort (fun a b => vendor_lt (cv_v a) (cv_v b)) cvs in
-        Ok (map (fun a => DTypeConst (ga_ident a) (hd 0 (ga_oid a))) attrs
-            ++ map (fun c => DVendorConst (gn_ident (cv_v c)) (gn_num (cv_v c))) vendors
-            ++ map (fun e => DExtInit (snd e) (map (fun v => (gl_ident v, gl_num v))
-                                                   (ext_vals e))) ext
-            ++ flat_map (fun a => funcs a values) attrs
-            ++ flat_map (fun c => map (DVendorFunc (gn_ident (cv_v c))) [0; 1; 2; 3; 4]
-                                  ++ flat_map (fun a => funcs a (cv_vals c)) (cv_attrs c)) vendors)
+        let vendors := sort cvendor_lt cvs in
+        Ok (emit attrs ext values exts vendors)
       | Err x => Err x | Panic => Panic | OutOfFuel => OutOfFuel
       end end end
     | Err x => Err x | Panic => Panic | OutOfFuel => OutOfFuel
